@@ -402,6 +402,8 @@ def gen_edit(rng, script, live, bad=0.0):
 
 
 def gen_fam(rng, fam, bad=0.0, single=None):
+    """family-level specification edit | edit(file) | edit(def | imp[(..)] | trt[(..)] | file(..), ..) of any length
+    (single=True cuts the list to one element); since the F7 repair lists of every length are ordinary legal inputs"""
     r = rng.random()
     if r < 0.1:
         return ("bare",)
